@@ -13,4 +13,20 @@ CHECKS = {
           "and failure atomicity are compared. Bounded exploration: finds counterexamples, does not prove absence."),
     note=("Trusts the allocator model in vlib/props/C02.py (brute-force overlap scan). Names are unique so namespace "
           "conflicts never cause refusals; dense ratio>1 windows: placement address not predicted (not claimed by the property).")),
+ "C19": dict(
+    design_ref="DESIGN.md section 4, C19",
+    technique="property-based testing over generated component configurations; outcome classification + triple-elaboration RTLIL differential",
+    text=("For 12 component classes, generated parameter combinations (including boundary/invalid values, unaligned CSR layouts with every "
+          "sharing limit, Builder Cluster/Index histories, enum/flag shapes) are constructed and elaborated three times under a watchdog; "
+          "each step must succeed or be a deliberate ValueError/TypeError refusal, RTLIL of the three elaborations must be identical and "
+          "memory map / signature / public metadata unchanged. Bounded exploration of the configuration space."),
+    note=("Deliberate refusal is recognised syntactically (innermost frame is a `raise` statement in amaranth_soc/amaranth raising the caught class). "
+          "Non-termination is observed as a 60 s watchdog or RecursionError. Hardware identity = RTLIL text identity.")),
+ "C20": dict(
+    design_ref="DESIGN.md section 4, C20",
+    technique="property-based testing: wiring.connect() of complementary interfaces to generated components; signature round-trip/equality oracle from parameters",
+    text=("Generated components of every class get the complementary standard interface connect()ed to each bus port; generated parameter pairs of "
+          "the six signature classes are checked for create() round trip, equality iff defining parameters are equal (both argument orders), "
+          "member presence, widths and flows computed independently from the parameters."),
+    note="Only same-class comparisons; FieldPort shapes compared after Shape.cast as documented."),
 }
